@@ -3,6 +3,7 @@
 Exit codes: 0 = nothing explored violated the property; 1 = VIOLATION (replayed on the real code);
 2 = harness error (non-reproducing counterexample, vacuous harness, twin not refuted, crash).
 """
+import concurrent.futures
 import hashlib
 import importlib
 import json
@@ -201,6 +202,7 @@ def main():
                     harness_errors.append("%s: refuted without recorded counterexample: %s" % (o["name"], msgs[0][:1500] if msgs else ""))
                 reproduced = 0
                 per_fp = {}
+                todo = []
                 for f in fails:
                     per_fp[f.get("fingerprint")] = per_fp.get(f.get("fingerprint"), 0) + 1
                     if per_fp[f.get("fingerprint")] > 3:
@@ -213,9 +215,16 @@ def main():
                     path = os.path.join(d, "%s.json" % h)
                     with open(path, "w") as fh:
                         json.dump(rp, fh, indent=1, default=str)
-                    pr = subprocess.run([sys.executable, "-m", "vt.run", "--replay", path], cwd=ROOT,
-                                        capture_output=True, text=True,
-                                        env=dict(os.environ, PYTHONPATH=PYPATH, PYTHONDONTWRITEBYTECODE="1", PYTHONHASHSEED="0"))
+                    todo.append((f, path))
+
+                def _replay(item):
+                    return subprocess.run([sys.executable, "-m", "vt.run", "--replay", item[1]], cwd=ROOT,
+                                          capture_output=True, text=True,
+                                          env=dict(os.environ, PYTHONPATH=PYPATH, PYTHONDONTWRITEBYTECODE="1", PYTHONHASHSEED="0"))
+                # every recorded counterexample is replayed in its own fresh interpreter (several at a time)
+                with concurrent.futures.ThreadPoolExecutor(max_workers=max(1, min(8, len(todo)))) as ex:
+                    done = list(ex.map(_replay, todo))
+                for (f, path), pr in zip(todo, done):
                     if pr.returncode == 1:
                         reproduced += 1
                         fp = f.get("fingerprint")
